@@ -119,6 +119,16 @@ func (c *Context) Copy() *Context {
 	ctx.Resp = &ctx.writer
 	ctx.handlers = nil
 	ctx.index = abortIndex
+
+	// NOTICE: the source context goes back to the pool and is reused by other requests,
+	// so the copy must own its errors buffer and data map.
+	ctx.Errors = append([]error(nil), c.Errors...)
+	if c.data != nil {
+		ctx.data = make(map[string]any, len(c.data))
+		for k, v := range c.data {
+			ctx.data[k] = v
+		}
+	}
 	return &ctx
 }
 
